@@ -80,6 +80,8 @@ def judge(programs, out, compression):
         c11.append("deadlock: not every thread finished")
     if err:
         c11.append("the wire is not a sequence of whole frames: " + err)
+        if any(c[0] in ("close", "server_close") for p in programs for c in p):
+            c12.append("close() raced with a send and the wire is no longer a sequence of whole frames (%s): the peer cannot read the Close frame" % err)
         return c11, c12
     for res in out["results"]:
         for r in res:
